@@ -65,9 +65,11 @@ func RunCheck(w *World, o CheckOpts) int {
 	sort.Strings(keys)
 	timeout := o.Timeout
 	if timeout == 0 {
-		timeout = 10
+		// almost every obligation is decided in well under a second; the budget only matters for the two CRC-24
+		// equivalence lemmas (about 20 s on one solver) and for obligations that fail
+		timeout = 90
 		if o.Tier == "thorough" {
-			timeout = 60
+			timeout = 300
 		}
 	}
 	par := make(chan struct{}, runtime.NumCPU())
